@@ -231,6 +231,8 @@ def shrink(c):
 # functions of the implementation this property is anchored in: their line coverage under the correspondence cases is
 # measured on the staged copy and reported in the evidence (implementation_line_coverage)
 ANCHORS = [
+    "datascope/importance/shapley.py:get_unit_labels_and_distances",
+    "datascope/importance/shapley.py:compute_shapley_1nn_mapfork",
     "datascope/importance/shapley.py:compute_shapley_add",
     "datascope/importance/oracle.py:compile",
     "datascope/importance/oracle.py:ShapleyOracle.__init__",
